@@ -61,7 +61,8 @@ def knownReaders : List (String × String) :=
     ("Syphilis", "set_prognoses"), ("Syphilis", "set_secondary_prognoses"), ("RandomNet", "add_pairs"),
     ("", "set_seed"),    -- set_seed draws a seed for numba only when called with seed=None (not from Sim.init)
     ("Tx", "administer"),    -- iterates a set of agent uids (integers: their set order does not depend on the hash seed)
-    ("Loop", "__repr__") ]   -- display only: a set of array lengths (integers)
+    ("Loop", "__repr__"),    -- display only: a set of array lengths (integers)
+    ("", "diff_sims") ]      -- compares two finished simulations: the set differences only order the key names in its message
 
 theorem C01_readers_are_known :
     ∀ r ∈ Gen.globalReads, (r.2.1, r.2.2.1) ∈ knownReaders := by decide
